@@ -23,4 +23,5 @@ PATH_WORLDS = {
     "uni+aave": lambda: catalog.uni_aave_world(),
     "deribit+uni": lambda: catalog.deribit_uni_world(),
     "deribit(many)+uni": lambda: catalog.deribit_uni_world(2, extra_instruments=70),  # 146 option rows against 61 minute bars
+    "deribit(cut)": lambda: catalog.deribit_world(cut_from=6),  # three hours cut out of a six-hour download (for C05's bar-index question)
 }
